@@ -445,6 +445,126 @@ func genMultiSame(thorough bool) {
 	}
 }
 
+// variants of one dynamic operation with different parameters: a processor may hold several of them
+// (each instantiates its own helper module / stack / literal width)
+var dynGroups = [][]string{
+	{"rsets8", "rsets4", "rsets12"},
+	{"callo4cs", "callo8ct"}, {"calla4cs", "calla8ct"}, {"ret4cs", "ret8ct"},
+	{"push4ds", "push8es"}, {"pull4ds", "pull8es"},
+	{"addfps16f8", "addfps12f6", "addfps16f4"}, {"multfps16f8", "multfps16f4", "multfps12f6"}, {"divfps16f8", "divfps16f4"},
+	{"addlqs8t1", "addlqs6t1", "addlqs8t2"}, {"multlqs8t1", "multlqs6t1", "multlqs8t2"}, {"divlqs8t1", "divlqs6t2"},
+}
+
+// Found by the families below on the unchanged tree (96ceb1e) and reported to the integrator; until the
+// entries proposed in docs/C18-known-findings.json are listed, the machines that show them stay out:
+//   - two call / stack opcodes of different size or name in one processor: `[redeclared] parameter CALL1` / `REGST1`
+//   - two mult / div linear-quantiser opcodes in one processor: helper module `<op>_correction_N` of the second undefined
+//   - addf + addf16 (multf + multf16, divf + divf16) in one processor: `adder_N_input_a` … declared twice
+//   - an unconnected processor input: `pKiJ_valid` / `pKiJ_received` used in bondmachine.v, never declared
+//
+// Set to true once they are listed.
+const pendingFindings = true
+
+var pendingGroup = map[int]bool{1: true, 2: true, 3: true, 4: true, 5: true, 10: true, 11: true}
+
+// genDynVariants: pairs and the whole group of every dynamic operation in one processor, and pairs
+// across the operations of one family (add + mult of different precision)
+func genDynVariants(thorough bool) {
+	one := func(kind string, ops []string) {
+		p, sos := procFor(append([]string{"rset", "j"}, ops...), "ha", 0)
+		emit(finalize(single(kind, 16, p, sos, "iverilog")))
+	}
+	for gi, g := range dynGroups {
+		if pendingGroup[gi] && !pendingFindings {
+			continue
+		}
+		for i := range g {
+			for j := i + 1; j < len(g); j++ {
+				one(fmt.Sprintf("dynvar:%s+%s", g[i], g[j]), []string{g[i], g[j]})
+			}
+		}
+		if len(g) > 2 {
+			one("dynvar:"+strings.Join(g, "+"), g)
+		}
+		// across operations of the same family: this group's first with the next group's last
+		if gi+1 < len(dynGroups) && (thorough || gi%2 == 0) && (pendingFindings || !pendingGroup[gi+1]) {
+			h := dynGroups[gi+1]
+			one(fmt.Sprintf("dynvar:%s+%s", g[0], h[len(h)-1]), []string{g[0], h[len(h)-1]})
+		}
+	}
+}
+
+// genCommented: Config.CommentedVerilog on (the annotations of Write_verilog_main / conproc.go), on
+// topologies with a fanned-out processor output, an unconnected processor output, an output that
+// feeds a processor and the machine, an unconnected processor input, and shared objects
+func genCommented() {
+	src, _ := procFor([]string{"rset", "inc", "j", "r2o"}, "ha", 0)
+	src.M = 2
+	dst, _ := procFor([]string{"rset", "j", "i2r", "r2o"}, "ha", 0)
+	dst.N, dst.M = 1, 1
+	mk := func(kind string, procs []procSpec, in, outs int, bonds [][2]string) *spec {
+		return &spec{Kind: kind, Rsize: 8, Flavor: "iverilog", Commented: true, Procs: procs, Inputs: in, Outputs: outs, Bonds: bonds}
+	}
+	// p0o0 -> p1i0 and p2i0 (fan-out 2), p0o1 unconnected, p1o0 -> o0, p2o0 unconnected
+	emit(mk("comm:fanout2", []procSpec{src, dst, dst}, 0, 1,
+		[][2]string{{"p1i0", "p0o0"}, {"p2i0", "p0o0"}, {"o0", "p1o0"}}))
+	// fan-out 3 including a machine output; every processor output connected
+	emit(mk("comm:fanout3", []procSpec{src, dst, dst}, 0, 3,
+		[][2]string{{"p1i0", "p0o0"}, {"p2i0", "p0o0"}, {"o0", "p0o0"}, {"o1", "p0o1"}, {"o2", "p1o0"}}))
+	// nothing connected at all (an unconnected processor input: see pendingFindings); without it: outputs only
+	if pendingFindings {
+		emit(mk("comm:unconnected", []procSpec{src, dst}, 1, 1, nil))
+	}
+	emit(mk("comm:unconnected-outputs", []procSpec{src, src}, 0, 1, nil))
+	// a machine input fanned out to two processors
+	emit(mk("comm:infanout", []procSpec{dst, dst}, 1, 2,
+		[][2]string{{"p0i0", "i0"}, {"p1i0", "i0"}, {"o0", "p0o0"}, {"o1", "p1o0"}}))
+	// one to one (the shape the comment code is usually run on)
+	emit(mk("comm:chain", []procSpec{src, dst}, 0, 2,
+		[][2]string{{"p1i0", "p0o0"}, {"o0", "p0o1"}, {"o1", "p1o0"}}))
+	// with shared objects and threads
+	for _, so := range []string{"queue:4", "barrier:0", "sharedmem:4"} {
+		s := soMachine(so, 2, 0, 8)
+		s.Kind = "comm:" + s.Kind
+		s.Commented = true
+		emit(finalize(s))
+	}
+	p, sos := procFor([]string{"rset", "inc", "add", "j", "jz", "cpy", "i2r", "r2o", "r2m", "m2r"}, "hy", 2)
+	c := finalize(single("comm:hy.thr2", 8, p, sos, "iverilog"))
+	c.Commented = true
+	emit(c)
+}
+
+// dropClash: see pendingFindings — keep one of addf/addf16, multf/multf16, divf/divf16 and one opcode of
+// each call / stack / lqs-correction family
+func dropClash(ops []string) []string {
+	fam := func(o string) string {
+		switch {
+		case o == "addf" || o == "addf16":
+			return "addf"
+		case o == "multf" || o == "multf16":
+			return "multf"
+		case o == "divf" || o == "divf16":
+			return "divf"
+		case strings.HasPrefix(o, "multlqs") || strings.HasPrefix(o, "divlqs"):
+			return o[:6]
+		}
+		return ""
+	}
+	seen := map[string]bool{}
+	var out []string
+	for _, o := range ops {
+		if f := fam(o); f != "" {
+			if seen[f] {
+				continue
+			}
+			seen[f] = true
+		}
+		out = append(out, o)
+	}
+	return out
+}
+
 func pickN(r *common.Rng, xs []string, k int) []string {
 	ys := append([]string{}, xs...)
 	for i := len(ys) - 1; i > 0; i-- {
@@ -526,6 +646,10 @@ func gen(thorough bool) {
 	genPermuted(thorough)
 	// (4d) one processor attached to several shared objects of the same kind
 	genMultiSame(thorough)
+	// (4e) several parameterisations of one dynamic operation in one processor
+	genDynVariants(thorough)
+	// (4f) the comment option on fan-out / unconnected topologies
+	genCommented()
 	// (5) ports without IO opcodes (the CLIs let the user choose N and M freely)
 	{
 		p := procSpec{R: 2, N: 2, M: 0, O: 4, Mode: "ha", Ops: []string{"inc", "j"}}
@@ -575,6 +699,9 @@ func gen(thorough bool) {
 		soIdx := map[string]int{}
 		for pi := 0; pi < np; pi++ {
 			ops := pickN(r, allNames, 2+r.Intn(10))
+			if !pendingFindings {
+				ops = dropClash(ops)
+			}
 			mode := []string{"ha", "ha", "vn", "hy"}[r.Intn(4)]
 			thr := 0
 			if r.Chance(1, 4) {
@@ -610,6 +737,26 @@ func gen(thorough bool) {
 		}
 		if r.Chance(1, 3) {
 			s.HwOpt = []string{[]string{"onlydestregs", "onlysrcregs"}[r.Intn(2)]}
+		}
+		if r.Chance(1, 4) {
+			s.Commented = true
+		}
+		if r.Chance(1, 3) {
+			// internal bonds: some processor input is fed by some processor output instead of a machine
+			// input (fan-out when several pick the same output), which also leaves machine ports dangling
+			var outs []string
+			for pi, p := range s.Procs {
+				for k := 0; k < p.M; k++ {
+					outs = append(outs, fmt.Sprintf("p%do%d", pi, k))
+				}
+			}
+			if len(outs) > 0 {
+				for bi := range s.Bonds {
+					if strings.Contains(s.Bonds[bi][0], "i") && strings.HasPrefix(s.Bonds[bi][0], "p") && r.Chance(1, 2) {
+						s.Bonds[bi][1] = outs[r.Intn(len(outs))]
+					}
+				}
+			}
 		}
 		emit(finalize(s))
 		if np > 1 && r.Chance(1, 3) {
